@@ -10,6 +10,19 @@ import functools
 
 basic.load_theory('int')
 
+def compare_literal(t1, t2):
+    """Ordering of the members of a conjunction or disjunction: by atom,
+    with a member and its negation next to each other, so that
+    complementary members always meet during normalization.
+
+    """
+    a1 = t1.arg if t1.is_not() else t1
+    a2 = t2.arg if t2.is_not() else t2
+    cp = term_ord.fast_compare(a1, a2)
+    if cp != 0:
+        return cp
+    return term_ord.compare_atom(t1.is_not(), t2.is_not())
+
 class nnf_conv(Conv):
     """
     Convert a term to negation normal form.
@@ -70,7 +83,7 @@ class norm_conj_atom(Conv):
                                 arg1_conv(rewr_conv('conj_pos_neg')),
                                 rewr_conv('conj_false_right'))
             
-            cp = term_ord.fast_compare(t.arg1, t.arg.arg1)
+            cp = compare_literal(t.arg1, t.arg.arg1)
             if cp > 0:
                 return pt.on_rhs(swap_conj_r(), arg_conv(self), try_conv(self))
             elif cp == 0:
@@ -83,7 +96,7 @@ class norm_conj_atom(Conv):
                 return pt.on_rhs(rewr_conv('conj_pos_neg'))
             elif t.arg1 == Not(t.arg):
                 return pt.on_rhs(rewr_conv('conj_neg_pos'))
-            cp = term_ord.fast_compare(t.arg1, t.arg)
+            cp = compare_literal(t.arg1, t.arg)
             if cp > 0:
                 return pt.on_rhs(swap_conj_r())
             elif cp == 0:
@@ -138,16 +151,20 @@ class norm_disj_atom(Conv):
                                 arg1_conv(rewr_conv('disj_pos_neg')),
                                 rewr_conv('disj_true_left'))
             
-            cp = term_ord.fast_compare(t.arg1, t.arg.arg1)
+            cp = compare_literal(t.arg1, t.arg.arg1)
             if cp > 0:
-                return pt.on_rhs(swap_disj_r(), arg_conv(self))
+                return pt.on_rhs(swap_disj_r(), arg_conv(self), try_conv(self))
             elif cp == 0:
                 return pt.on_rhs(rewr_conv('disj_assoc_eq'), 
                                 arg1_conv(rewr_conv('disj_same_atom')))
             else:
                 return pt
         else:
-            cp = term_ord.fast_compare(t.arg1, t.arg)
+            if t.arg == Not(t.arg1):
+                return pt.on_rhs(rewr_conv('disj_pos_neg'))
+            elif t.arg1 == Not(t.arg):
+                return pt.on_rhs(rewr_conv('disj_neg_pos'))
+            cp = compare_literal(t.arg1, t.arg)
             if cp > 0:
                 return pt.on_rhs(swap_disj_r())
             elif cp == 0:
